@@ -184,7 +184,7 @@ def pseudo_response_spectra(motion, dt, periods, xi):
     sds = absmax(resp_u, axis=1)
     svs = w * sds
     sas = w ** 2 * sds
-    sas = np.where(periods < dt * 6, absmax(motion), sas)
+    sas = np.where(periods < dt * 6, absmax(np.asarray(motion, dtype=float)), sas)
     return sds, svs, sas
 
 
@@ -211,11 +211,12 @@ def true_response_spectra(motion, dt, periods, xi):
     :param xi: float, fraction of critical damping (e.g. 0.05)
     :return: tuple floats, (spectral displacement, spectral velocity, spectral acceleration)
     """
+    periods = np.array(periods, dtype=float)
     resp_u, resp_v, resp_a = nigam_and_jennings_response(motion, dt, periods, xi)
     sas = absmax(resp_a, axis=1)
     svs = absmax(resp_v, axis=1)
     sds = absmax(resp_u, axis=1)
-    sas = np.where(periods < dt * 6, absmax(motion), sas)
+    sas = np.where(periods < dt * 6, absmax(np.asarray(motion, dtype=float)), sas)
     return sds, svs, sas
 
 
